@@ -1,7 +1,9 @@
 //! Semantics-free harness: renders abstract cases, runs the real nitrogql code,
 //! and re-encodes what it observed as ndjson events for the TLA+ trace specs.
 //! A panic in the code under test is data (an event), never a harness failure.
+mod cli;
 mod debug;
+mod exports;
 mod extmerge;
 mod imports;
 mod loader;
@@ -27,13 +29,16 @@ fn main() {
     let rest = &args[2..];
     let rc = match args[1].as_str() {
         "paths" => paths::run(rest),
+        "cliproj" => cli::run(rest),
         "debug" => debug::run(rest),
+        "exports" => exports::run(rest),
         "extmerge" => extmerge::run(rest),
         "imports" => imports::run(rest),
         "loader" => loader::run(rest),
         "opfile" => opfile::run(rest),
         "parse" => parse::run(rest),
         "opfile-child" => opfile::run_child(rest),
+        "opfile-cli" => opfile::run_cli(rest),
         "loader-child" => loader::run_child(rest),
         "tsread" => tsread::run(rest),
         other => {
